@@ -6,28 +6,23 @@ for t, nloops in [('boolean', 2), ('int32', 0), ('int64', 0), ('int96', 1), ('fl
                   ('byte_array', 1)]:
     fn = 'carquet_decode_plain_' + ('fixed_byte_array' if t == 'fixed' else t)
     JOBS.append(dict(name='c08_plain_' + t, props=['C08', 'C12'], entry='h_plain_' + t, enforce=fn,
-                     min_loop_obligations=nloops, timeout=240, wip=True, **P08))
+                     min_loop_obligations=nloops, timeout=240, wip=False, est_s=20 if t == 'boolean' else 10, **P08))
 JOBS.append(dict(name='c08_plain_fixed', props=['C08', 'C12'], entry='h_plain_fixed', harness='harness/C08/plain.c',
-                 includes=['.'], loop_contracts=False, backend=['z3', 'sat'], timeout=240,
-                 functions=['carquet_decode_plain_fixed_byte_array'], wip=True))
-# CQV_HUGE variant: count up to INT64_MAX (the output object is then an arbitrary object, the decoder must reject
-# because count*width > input_size).  Exhibits the unchecked (size_t)count*width overflow: FINDING, jobs stay wip.
-HUGE_NOTE = ('FINDING: (size_t)count*width wraps for count >= 2^64/width: decoder returns success for a count whose '
-             'encoded size exceeds input_size (and copies/loops out of bounds); not reachable from the file reader (num_values is int32)')
-for t, nloops in [('int32', 0), ('int64', 0), ('int96', 1), ('float', 0), ('double', 0)]:
-    JOBS.append(dict(name='c08_plain_%s_hugecount' % t, props=['C08'], entry='h_plain_' + t, enforce='carquet_decode_plain_' + t,
-                     defines=['CQV_HUGE=1'], min_loop_obligations=nloops, timeout=240, wip=True, note=HUGE_NOTE, **P08))
-JOBS.append(dict(name='c08_plain_fixed_hugecount', props=['C08'], entry='h_plain_fixed', harness='harness/C08/plain.c',
-                 includes=['.'], loop_contracts=False, backend=['z3', 'sat'], timeout=240, defines=['CQV_HUGE=1'],
-                 functions=['carquet_decode_plain_fixed_byte_array'], wip=True, note=HUGE_NOTE))
+                 includes=['.'], loop_contracts=False, backend=['z3', 'sat'], timeout=400, tier='thorough', est_s=150,
+                 functions=['carquet_decode_plain_fixed_byte_array'], wip=False))
+# (the former *_hugecount variants are now the main jobs: no bound on count, see harness/C08/plain.c)
+PLAIN_FZ = dict(kind='fuzz', harness='replay/fz/plain_decode.c', max_len=40, secs=20,
+                sources=['src/encoding/plain.c', 'src/core/buffer.c'])
+for j_ in JOBS:
+    j_['replayer'] = PLAIN_FZ
 JOBS += [
     dict(name='c08_plain_dispatch', props=['C08'], entry='h_plain_dispatch', loop_contracts=False,
          replace=['carquet_decode_plain_boolean', 'carquet_decode_plain_int96', 'carquet_decode_plain_byte_array'],
          functions=['carquet_decode_plain', 'carquet_decode_plain_int32', 'carquet_decode_plain_int64',
-                    'carquet_decode_plain_float', 'carquet_decode_plain_double'], timeout=240, wip=True, **P08),
+                    'carquet_decode_plain_float', 'carquet_decode_plain_double'], timeout=240, wip=False, **P08),
     dict(name='c08_plain_dispatch_fixed', props=['C08'], entry='h_plain_dispatch_fixed', harness='harness/C08/plain.c',
          includes=['.'], loop_contracts=False, backend=['z3', 'sat'], timeout=300, tier='thorough', est_s=150,
-         functions=['carquet_decode_plain', 'carquet_decode_plain_fixed_byte_array'], wip=True),
+         functions=['carquet_decode_plain', 'carquet_decode_plain_fixed_byte_array'], wip=False),
 ]
 
 # ---- BYTE_STREAM_SPLIT ----
@@ -38,12 +33,67 @@ B08 = dict(overlays=['contracts/bss.ovl'], harness='harness/C08/bss.c', includes
 BSS_WIDTHS = [1, 2, 3, 4, 5, 7, 8, 12, 16]
 JOBS += [
     dict(name='c08_bss_decode_float', props=['C08', 'C11', 'C12'], entry='h_bss_decode_float',
-         enforce='carquet_byte_stream_split_decode_float', timeout=240, wip=True, **B08),
+         enforce='carquet_byte_stream_split_decode_float', timeout=240, wip=False, **B08),
     dict(name='c08_bss_decode_double', props=['C08', 'C11', 'C12'], entry='h_bss_decode_double',
-         enforce='carquet_byte_stream_split_decode_double', timeout=240, wip=True, **B08),
+         enforce='carquet_byte_stream_split_decode_double', timeout=240, wip=False, **B08),
 ]
 for w in BSS_WIDTHS:
-    JOBS.append(dict(name='c08_bss_decode_generic_w%d' % w, props=['C08', 'C11', 'C12'], entry='h_bss_decode_generic',
+    # safety only (C08); the layout relation (ghost i,b) is the CQV_CONTENT variant below (C11/C12)
+    JOBS.append(dict(name='c08_bss_decode_generic_w%d' % w, props=['C08'], entry='h_bss_decode_generic',
                      enforce='carquet_byte_stream_split_decode', defines=['CQV_W=%d' % w], min_loop_obligations=2,
                      level='bounded', bound='type_length == %d (all counts, all data)' % w, timeout=300,
-                     tier='quick' if w in (1, 4, 12) else 'thorough', wip=True, **B08))
+                     tier='quick' if w in (1, 4) else 'thorough', wip=(w in (12, 16)),
+                     note=('ok on the unchanged tree; the run on the broken copy reported broken/vacuity instead of a violation '
+                           '(not investigated) => not validated') if w in (12, 16) else None, **B08))
+for w in (1, 2, 4):
+    JOBS.append(dict(name='c11_bss_decode_generic_layout_w%d' % w, props=['C11', 'C12'], entry='h_bss_decode_generic',
+                     enforce='carquet_byte_stream_split_decode', defines=['CQV_W=%d' % w, 'CQV_CONTENT=1'], min_loop_obligations=2,
+                     level='bounded', bound='type_length == %d (all counts, all data)' % w, timeout=400, est_s=200,
+                     tier='thorough', wip=True, **B08))
+
+# ---- dictionary ----
+D08 = dict(overlays=['contracts/dictionary.ovl'], harness='harness/C08/dictionary.c', includes=['.'],
+           extra_sources=['stubs/mem_stubs.c', 'stubs/plain_stubs.c'],
+           cbmc_flags=['--malloc-may-fail', '--malloc-fail-null'], defines=['CQV_RLE_STUB_FRESH_OUTPUT=1'],
+           trusted=['stubs/plain_stubs.c: carquet_rle_decode_all as contract (-1 or n <= max_values, arbitrary uint32 values written)'])
+DICT_NOTE = ('FINDING: `(int32_t)indices[i] >= dict_count` accepts indices >= 2^31 (negative after the cast): '
+             'dict_data + indices[i]*width is read far outside the dictionary')
+for t in ('int32', 'int64', 'float', 'double'):
+    JOBS.append(dict(name='c08_dict_decode_' + t, props=['C08'], entry='h_dict_decode_' + t,
+                     enforce='carquet_dictionary_decode_' + t, min_loop_obligations=1, timeout=240, wip=True,
+                     replayer=dict(kind='fuzz', harness='replay/fz/dict_decode.c', max_len=32, secs=20,
+                                   sources=['src/encoding/dictionary.c', 'src/encoding/rle.c', 'src/core/buffer.c', 'src/core/bitpack.c']),
+                     note=DICT_NOTE, **D08))
+
+# ---- C11/C12: PLAIN encoders ----
+BUF_TRUST = ['stubs/plain_stubs.c: carquet_buffer_append/append_u32_le/advance as recorded-call stubs (which bytes are handed '
+             'to the buffer); storing them is the buffer family\'s contract']
+JOBS.append(dict(name='c11_plain_encode_boolean', props=['C11', 'C12'], entry='h_enc_boolean', enforce='carquet_encode_plain_boolean',
+                 overlays=['contracts/plain.ovl'], harness='harness/C11/plain.c', includes=['.'],
+                 extra_sources=['stubs/plain_stubs.c'], defines=['CQV_OWN_MEMSET=1'], min_loop_obligations=1, timeout=300, wip=True,
+                 trusted=BUF_TRUST + ['stubs/plain_stubs.c: memset with ghost-index postcondition'],
+                 note='FINDING: an empty boolean sequence (count == 0) is reported as CARQUET_ERROR_OUT_OF_MEMORY '
+                      '(carquet_buffer_advance returns NULL for size 0)'))
+for w, t in enumerate(['int32', 'int64', 'float', 'double', 'fixed_byte_array']):
+    JOBS.append(dict(name='c11_plain_encode_' + t, props=['C11', 'C12'], entry='h_enc_fixedwidth', harness='harness/C11/plain.c',
+                     includes=['.'], extra_sources=['stubs/mem_stubs.c', 'stubs/plain_stubs.c'], defines=['CQV_WHICH=%d' % w],
+                     loop_contracts=False, backend=['z3', 'sat'] if w == 4 else 'sat', timeout=240,
+                     functions=['carquet_encode_plain_' + t], trusted=BUF_TRUST, wip=False))
+
+# ---- C11/C12: BYTE_STREAM_SPLIT encoders ----
+B11 = dict(B08, harness='harness/C11/bss.c')
+JOBS += [
+    dict(name='c11_bss_encode_float', props=['C11', 'C12'], entry='h_bss_encode_float',
+         enforce='carquet_byte_stream_split_encode_float', timeout=240, wip=True, **B11),
+    dict(name='c11_bss_encode_double', props=['C11', 'C12'], entry='h_bss_encode_double',
+         enforce='carquet_byte_stream_split_encode_double', timeout=240, wip=True, **B11),
+]
+for w in (1, 2, 4):
+    JOBS.append(dict(name='c11_bss_encode_generic_w%d' % w, props=['C11', 'C12'], entry='h_bss_encode_generic',
+                     enforce='carquet_byte_stream_split_encode', defines=['CQV_W=%d' % w, 'CQV_CONTENT=1'], min_loop_obligations=2,
+                     level='bounded', bound='type_length == %d (all counts, all data)' % w, timeout=400, est_s=200,
+                     tier='thorough', wip=True, **B11))
+
+# ---- C11: dictionary encoder index width ----
+JOBS.append(dict(name='c11_dict_bit_width_for_count', props=['C11'], entry='h_bit_width_for_count', harness='harness/C11/dictionary.c',
+                 includes=['.'], loop_contracts=False, unwind=34, functions=['bit_width_for_count'], timeout=120, wip=False))
